@@ -50,6 +50,9 @@ Seeds == {
        propertyNames |-> Sch([type |-> "object", title |-> "Thing", minProperties |-> 7]),
        depsS |-> << <<"a", Sch([type |-> "object", title |-> "Thing", minProperties |-> 8])>> >>])
     @@ ("not" :> Sch([type |-> "object", title |-> "Thing", minProperties |-> 9])),
+  (* defaults on a composition and on its only member; on a type list; nested *)
+  Sch([default |-> JInt(2), allOf |-> << Sch([default |-> JInt(3)]) >>,
+       properties |-> << <<"a", Sch([types |-> <<"string", "null">>, default |-> JStr("")])>> >>]),
   (* numeric types meeting in compositions (which member builds the value?) *)
   Sch([type |-> "number", allOf |-> << Ty("integer") >>,
        anyOf |-> << Ty("integer"), Ty("number") >>]),
